@@ -52,6 +52,7 @@ struct Slot {
     int peer = -1;
     bool established = false;
     double pending_deadline = 0; // pending connect: when its tcp.connect_timeout expires
+    long seq = 0;                // order of creation (clients: order of connecting)
 };
 
 std::string g_dir, g_ctl;
@@ -233,6 +234,8 @@ struct Runner {
             log("#%d connect(%s) -> %s", idx, addr.c_str(), s ? "ok" : errname(e));
             if (!s) { if (e == 0) fail("xcm_connect_a(%s) returned NULL with errno 0", addr.c_str()); return; }
             sl.s = s; sl.tp = sv.tp; sl.server = false; sl.peer = -1; sl.established = false;
+            static long connect_seq = 0;
+            sl.seq = ++connect_seq;
             sl.addr = std::to_string(op.b % 6); // remember which server
             break;
         }
@@ -284,13 +287,21 @@ struct Runner {
             log("#%d accept(server slot %d) -> %s", idx, op.b % 6, s ? "ok" : errname(e));
             if (!s) { if (e == 0) fail("xcm_accept returned NULL with errno 0"); return; }
             sl.s = s; sl.tp = sv.tp; sl.server = false; sl.established = false;
-            // pair with a client of that server that has no peer yet
-            for (int i = 0; i < 6; i++)
-                if (slots[i].s && !slots[i].server && &slots[i] != &sl && slots[i].peer < 0 && slots[i].addr == std::to_string(op.b % 6)) {
-                    slots[i].peer = (int)(&sl - slots);
-                    sl.peer = i;
-                    break;
+            // pair with the client this connection belongs to: the one whose local address is the
+            // accepted socket's remote address (TCP legs); failing that (UX legs have no client address)
+            // the client of that server that connected first and has no peer yet
+            {
+                auto tail = [](const char *a) { std::string t = a ? a : ""; size_t c = t.find(':'); return c == std::string::npos ? t : t.substr(c + 1); };
+                std::string ra = tail(xcm_remote_addr(s));
+                int best = -1;
+                for (int i = 0; i < 6; i++) {
+                    if (!(slots[i].s && !slots[i].server && &slots[i] != &sl && slots[i].peer < 0 && slots[i].addr == std::to_string(op.b % 6))) continue;
+                    std::string la = tail(xcm_local_addr(slots[i].s));
+                    if (!ra.empty() && ra.find(':') != std::string::npos && la == ra) { best = i; break; }
+                    if (best < 0 || slots[i].seq < slots[best].seq) best = i;
                 }
+                if (best >= 0) { slots[best].peer = (int)(&sl - slots); sl.peer = best; }
+            }
             // drive both ends for a while (TLS handshakes)
             for (int i = 0; i < 200; i++) {
                 int r1 = api(71, [&] { return xcm_finish(sl.s); });
